@@ -955,6 +955,23 @@ theorem c17_whole_cycle_unchanged (w : Whole) (hq : Quiet w.b.m.oam) (hidle : w.
   obtain ⟨p, hp, e⟩ := (c17_whole_cycle w hq hidle hdma hwin).1 k hk hne
   exact hno p hp (by omega)
 
+/-- … the same with "performs no such write" read off the micro-operation being executed: if none of the write
+    addresses of the micro-operation of this cycle (`GhostBus.cycleWriteAddrs`: a function of the sub-instruction
+    list, its index and the registers) is in FE00–FE9F or is FF40 or FF46, OAM is unchanged – whatever the
+    micro-operation reads, and whichever pointers its 16-bit INC/DEC or POP move through FE00–FEFF -/
+theorem c17_whole_cycle_unchanged_microop (w : Whole) (hq : Quiet w.b.m.oam) (hidle : w.b.m.oam.dmaRunning = false)
+    (hw : ∀ a ∈ cycleWriteAddrs Cpu.Tables.gen w.cpu w.b,
+      ¬ (0xFE00 ≤ a.toNat ∧ a.toNat < 0xFEA0) ∧ a.toNat ≠ 0xFF40 ∧ a.toNat ≠ 0xFF46) :
+    w.cycle.b.m.oam.oam = w.b.m.oam.oam := by
+  cases hs : w.stopped
+  · have hmem : ∀ p ∈ cpuWrites w, p.1 ∈ cycleWriteAddrs Cpu.Tables.gen w.cpu w.b := by
+      intro p hp
+      rw [← cpuWrites_addrs w hs]
+      exact List.mem_map.mpr ⟨p, hp, rfl⟩
+    exact c17_whole_cycle_unchanged w hq hidle (fun p hp => (hw _ (hmem p hp)).2.2)
+      (Or.inl fun p hp e => absurd e (hw _ (hmem p hp)).2.1) (fun p hp => (hw _ (hmem p hp)).1)
+  · rw [whole_cycle_stopped w hs]
+
 /-! ## 4. LCD off: any number of cycles -/
 
 /-- **C17 (LCD off) on the whole machine.**  From ANY state with the LCD off, the OAM unit `Quiet` and no DMA
@@ -1028,7 +1045,7 @@ def offImg : Cart.Image :=
 /-- the machine `gameboy.New` builds from it -/
 def offW : Whole := powerOn (.none { rom := Cart.pagesOf offImg, imgLen := 0x8000 }) false false
 
-theorem offW_constructed : Whole.construct offImg false false = some offW := rfl
+private theorem offW_constructed : Whole.construct offImg false false = some offW := rfl
 
 /-- the constructed machine satisfies the invariant of reachable states, at every point of its run -/
 example (t : Nat) : OamOk (Whole.run t offW) := oamOk_run t _ (oamOk_construct _ _ _ _ offW_constructed)
@@ -1075,7 +1092,7 @@ def onImg : Cart.Image :=
       | 0x110 => 0x21 | 0x111 => 0x10 | 0x112 => 0xFE | 0x113 => 0x36 | 0x114 => 0x5A
       | _ => 0 }
 def onW : Whole := powerOn (.none { rom := Cart.pagesOf onImg, imgLen := 0x8000 }) false false
-theorem onW_constructed : Whole.construct onImg false false = some onW := rfl
+private theorem onW_constructed : Whole.construct onImg false false = some onW := rfl
 
 /-- the hypotheses of `c17_whole_cycle` with the LCD on, in mode 3, in a cycle in which the CPU writes FE10 … -/
 example : (Whole.run 21 onW).b.m.ppu.enabled = true ∧ (Whole.run 21 onW).b.m.ppu.mode = 3 ∧
